@@ -389,11 +389,9 @@ Proof.
   intros W H. unfold copy in H.
   assert (Hs : s' = fst (alloc s (read s a))) by (rewrite H; reflexivity).
   assert (Ha : a' = snd (alloc s (read s a))) by (rewrite H; reflexivity).
-  subst s' a'. repeat split.
-  - apply wf_alloc. exact W.
-  - apply ext_alloc.
-  - intros b Hb. apply lookup_alloc_other. lia.
-  - apply read_alloc_new.
+  subst s' a'.
+  split; [apply wf_alloc; exact W|]. split; [apply ext_alloc|].
+  split; [reflexivity|]. split; [reflexivity|]. apply read_alloc_new.
 Qed.
 
 Lemma copy_opt_spec s o s' o' : store_wf s -> copy_opt s o = (s', o') ->
@@ -402,15 +400,17 @@ Lemma copy_opt_spec s o s' o' : store_wf s -> copy_opt s o = (s', o') ->
   option_map (read s') o' = option_map (read s) o /\
   (o' = None <-> o = None).
 Proof.
-  intros W H. destruct o as [a|]; simpl in H.
+  intros W H. destruct o as [a|]; unfold copy_opt in H.
   - destruct (copy s a) as [s1 a1] eqn:C. injection H as <- <-.
     destruct (copy_spec _ _ _ _ W C) as [W1 [E1 [A1 [N1 R1]]]].
-    repeat split; auto; try (destruct E1; assumption); try discriminate.
-    + destruct H as [<-|[]]. lia.
-    + destruct H as [<-|[]]. lia.
+    split; [exact W1|]. split; [exact E1|]. split; [|split].
+    + intros b [<-|[]]. lia.
     + simpl. rewrite R1. reflexivity.
-  - injection H as <- <-. repeat split; auto; try apply ext_refl; try (intros a []); try lia.
-    intros; apply ext_refl; assumption.
+    + split; discriminate.
+  - injection H as <- <-. split; [exact W|]. split; [apply ext_refl|]. split; [|split].
+    + intros a [].
+    + reflexivity.
+    + tauto.
 Qed.
 
 (** One unit: fresh objects for position, velocity, time stamp, holding the current values. *)
@@ -446,15 +446,14 @@ Proof.
   assert (L1 : (next s <= next s1)%positive) by (destruct E1; assumption).
   assert (L2 : (next s1 <= next s2)%positive) by (destruct E2; assumption).
   assert (L3 : (next s2 <= next s3)%positive) by (destruct E3; assumption).
-  repeat split; auto.
-  - unfold unit_addrs in H. simpl in H. destruct H as [<-|H]; [lia|].
-    apply in_app_or in H. destruct H as [H|H]; [apply A2 in H | apply A3 in H]; lia.
-  - unfold unit_addrs in H. simpl in H. destruct H as [<-|H]; [lia|].
+  split; [exact W3|]. split; [exact E13|]. split; [reflexivity|].
+  split; [|split; [|split; [|split]]].
+  - intros a H. unfold unit_addrs in H. simpl in H. destruct H as [<-|H]; [lia|].
     apply in_app_or in H. destruct H as [H|H]; [apply A2 in H | apply A3 in H]; lia.
   - unfold unit_addrs; simpl. constructor.
     + intro H. apply in_app_or in H. destruct H as [H|H]; [apply A2 in H | apply A3 in H]; lia.
     + destruct v2 as [a2|], t3 as [a3|]; simpl; repeat constructor; simpl; try tauto.
-      intros [<-|[]]. specialize (A2 a2 (or_introl eq_refl)). specialize (A3 a2 (or_introl eq_refl)). lia.
+      intros [E|[]]. pose proof (A2 a2 (or_introl eq_refl)). pose proof (A3 a3 (or_introl eq_refl)). lia.
   - unfold uvals, urefs, rvals; simpl.
     assert (Rp : read s3 p1 = read s p).
     { rewrite (ext_read s1 s3 p1 E23) by lia. exact R1. }
@@ -464,12 +463,477 @@ Proof.
     assert (Rt : option_map (read s3) t3 = option_map (read s) t).
     { rewrite R3. apply opt_read_ext; [exact E12|]. intros a Ha. apply Hb. apply in_or_app; auto. }
     rewrite Rp, Rv, Rt. reflexivity.
-  - simpl. intro H. apply Hn. apply Z2. exact H.
-  - simpl. intro H. apply Z2. apply Hn. exact H.
+  - simpl. split; intro H; [apply Hn; apply Z2; exact H | apply Z2; apply Hn; exact H].
   - unfold unit_wf, unit_wfb; simpl.
     destruct v2, t3; try reflexivity; exfalso.
     + assert (t = None) by (apply Z3; reflexivity). assert (v = None) by (apply Hw; assumption).
       assert (Some a = None) by (apply Z2; assumption). discriminate.
     + assert (v = None) by (apply Z2; reflexivity). assert (t = None) by (apply Hw; assumption).
       assert (Some a = None) by (apply Z3; assumption). discriminate.
+Qed.
+
+Lemma NoDup_app_intro {A} (l1 l2 : list A) :
+  NoDup l1 -> NoDup l2 -> (forall a, In a l1 -> ~ In a l2) -> NoDup (l1 ++ l2).
+Proof.
+  induction l1 as [|x r IH]; simpl; intros N1 N2 D; [exact N2|].
+  inversion N1; subst. constructor.
+  - intro H. apply in_app_or in H. destruct H; [contradiction|]. apply (D x); auto.
+  - apply IH; auto.
+Qed.
+
+Lemma rvals_ext s s' p v t :
+  ext s s' -> (p < next s)%positive ->
+  (forall a, In a (opt_addrs v ++ opt_addrs t) -> (a < next s)%positive) ->
+  rvals s' (p, v, t) = rvals s (p, v, t).
+Proof.
+  intros E P B. unfold rvals. rewrite (ext_read s s' p E P).
+  rewrite (opt_read_ext s s' v E) by (intros a Ha; apply B; apply in_or_app; auto).
+  rewrite (opt_read_ext s s' t E) by (intros a Ha; apply B; apply in_or_app; auto).
+  reflexivity.
+Qed.
+
+Lemma uvals_ext s s' u :
+  ext s s' -> (forall a, In a (unit_addrs u) -> (a < next s)%positive) -> uvals s' u = uvals s u.
+Proof.
+  intros E B. unfold uvals, urefs. apply rvals_ext; [exact E | apply B; left; reflexivity |].
+  intros a Ha. apply B. right. exact Ha.
+Qed.
+
+Lemma lift_refs_below l s id :
+  lift_below l s ->
+  forall a, In a (opt_addrs (fst (lift_get l id)) ++ opt_addrs (snd (lift_get l id))) -> (a < next s)%positive.
+Proof.
+  intro B. rewrite lift_get_assoc. destruct (assoc id (l_dict l)) as [[v t]|] eqn:A; simpl; [|tauto].
+  destruct (B id v t A). intros a [<-|[<-|[]]]; assumption.
+Qed.
+
+Lemma extract_children_spec l i s0 : forall cs j s s' us,
+  store_wf s -> ext s0 s -> (forall p, In p cs -> (p < next s0)%positive) -> lift_below l s0 ->
+  extract_children l s i j cs = (s', us) ->
+  store_wf s' /\ ext s s' /\
+  (forall a, In a (flat_map unit_addrs us) -> (next s <= a < next s')%positive) /\
+  NoDup (flat_map unit_addrs us) /\
+  length us = length cs /\
+  (forall k u, nth_error us k = Some u ->
+     exists p, nth_error cs k = Some p /\ u_id u = Leaf i (j + k) /\
+       uvals s' u = rvals s0 (p, fst (lift_get l (Leaf i (j + k))), snd (lift_get l (Leaf i (j + k)))) /\
+       unit_wf u /\ (u_vel u = None <-> assoc (Leaf i (j + k)) (l_dict l) = None)).
+Proof.
+  induction cs as [|pc r IH]; intros j s s' us W E0 P B H; simpl in H.
+  - injection H as <- <-. split; [exact W|]. split; [apply ext_refl|].
+    split; [intros a []|]. split; [constructor|]. split; [reflexivity|].
+    intros k u Hk. destruct k; discriminate.
+  - destruct (extract_unit l s (Leaf i j) pc) as [s1 u] eqn:U.
+    destruct (extract_children l s1 i (S j) r) as [s2 us'] eqn:C.
+    injection H as <- <-.
+    assert (L0 : (next s0 <= next s)%positive) by (destruct E0; assumption).
+    assert (Ppc : (pc < next s)%positive) by (specialize (P pc (or_introl eq_refl)); lia).
+    destruct (extract_unit_spec l s (Leaf i j) pc s1 u W Ppc (lift_below_ext _ _ _ E0 B) U)
+      as [W1 [E1 [I1 [A1 [N1 [V1 [Z1 F1]]]]]]].
+    assert (E01 : ext s0 s1) by (eapply ext_trans; eauto).
+    destruct (IH (S j) s1 s2 us' W1 E01 (fun p Hp => P p (or_intror Hp)) B C)
+      as [W2 [E2 [A2 [N2 [Len K2]]]]].
+    assert (L1 : (next s <= next s1)%positive) by (destruct E1; assumption).
+    assert (L2 : (next s1 <= next s2)%positive) by (destruct E2; assumption).
+    split; [exact W2|]. split; [eapply ext_trans; eauto|].
+    split; [|split; [|split]].
+    + cbn [flat_map]. intros a Ha. apply in_app_or in Ha. destruct Ha as [Ha|Ha]; [apply A1 in Ha | apply A2 in Ha]; lia.
+    + cbn [flat_map]. apply NoDup_app_intro; [exact N1 | exact N2 |].
+      intros a Ha Hb. apply A1 in Ha. apply A2 in Hb. lia.
+    + simpl. rewrite Len. reflexivity.
+    + intros k x Hk. destruct k as [|k']; simpl in Hk.
+      * injection Hk as <-. exists pc. rewrite Nat.add_0_r. split; [reflexivity|]. split; [exact I1|].
+        split; [|split; [exact F1 | exact Z1]].
+        rewrite (uvals_ext s1 s2 u E2) by (intros a Ha; apply A1 in Ha; lia).
+        rewrite V1. apply rvals_ext; [exact E0 | apply P; left; reflexivity | apply lift_refs_below; exact B].
+      * destruct (K2 k' x Hk) as [p [Hp [Hi [Hv [Hw Hz]]]]].
+        exists p. rewrite <- plus_n_Sm. simpl in Hi, Hv, Hz. auto.
+Qed.
+
+(* ======================================================================================== *)
+(** ** extract_from_global_state *)
+
+Definition nchildren (g : gstate) (i : nat) : nat :=
+  match nth_error (g_phys g) i with Some (_, cs) => length cs | None => 0 end.
+
+(** The node, its ancestors, its descendants (in the order of the branch). *)
+Definition branch_ids (g : gstate) (id : ident) : list ident :=
+  match id with
+  | Root i => Root i :: map (Leaf i) (seq 0 (nchildren g i))
+  | Leaf i j => [Root i; Leaf i j]
+  end.
+
+(** What a copying extraction of [id] guarantees. *)
+Definition extract_post (g : gstate) (id : ident) (g' : gstate) (b : branch) : Prop :=
+  g' = set_store g (g_store g') /\ store_wf (g_store g') /\ ext (g_store g) (g_store g') /\
+  (forall a, In a (branch_addrs b) -> (next (g_store g) <= a < next (g_store g'))%positive) /\
+  NoDup (branch_addrs b) /\
+  map u_id (units b) = branch_ids g id /\
+  (forall u, In u (units b) ->
+     abs g (u_id u) = Some (uvals (g_store g') u) /\ unit_wf u /\ (u_vel u = None <-> ~ lifted g (u_id u))).
+
+Lemma ginv_lift_below g : ginv g -> lift_below (g_lift g) (g_store g).
+Proof.
+  intros G id v t H. split; apply (gi_reach g G); right; exists id, v, t; auto.
+Qed.
+
+Lemma ginv_phys_below g id p : ginv g -> phys_get (g_phys g) id = Some p -> (p < next (g_store g))%positive.
+Proof. intros G H. apply (gi_reach g G). left. eauto. Qed.
+
+Lemma abs_of_refs g id p :
+  phys_get (g_phys g) id = Some p ->
+  abs g id = Some (rvals (g_store g) (p, fst (lift_get (g_lift g) id), snd (lift_get (g_lift g) id))).
+Proof.
+  intro H. unfold abs, grefs. rewrite H. destruct (lift_get (g_lift g) id). reflexivity.
+Qed.
+
+Lemma map_nth_ids_gen i : forall (us : list unit_) j,
+  (forall k u, nth_error us k = Some u -> u_id u = Leaf i (j + k)) ->
+  map u_id us = map (Leaf i) (seq j (length us)).
+Proof.
+  induction us as [|x r IH]; intros j H; simpl; [reflexivity|].
+  f_equal.
+  - rewrite (H 0 x eq_refl). rewrite Nat.add_0_r. reflexivity.
+  - apply IH. intros k u Hk. rewrite (H (S k) u Hk). f_equal. lia.
+Qed.
+
+Lemma map_nth_ids (us : list unit_) i n :
+  length us = n -> (forall k u, nth_error us k = Some u -> u_id u = Leaf i (0 + k)) ->
+  map u_id us = map (Leaf i) (seq 0 n).
+Proof. intros <- H. apply map_nth_ids_gen. exact H. Qed.
+
+Theorem extract_spec g id g' b : ginv g -> extract g id = (g', Some b) -> extract_post g id g' b.
+Proof.
+  intros G H. pose proof (gi_wf g G) as W. pose proof (ginv_lift_below g G) as B.
+  destruct id as [i|i j]; simpl in H.
+  - destruct (nth_error (g_phys g) i) as [[p cs]|] eqn:N; [|discriminate].
+    destruct (extract_unit (g_lift g) (g_store g) (Root i) p) as [s1 ru] eqn:U.
+    destruct (extract_children (g_lift g) s1 i 0 cs) as [s2 cus] eqn:C.
+    injection H as <- <-.
+    assert (Pp : phys_get (g_phys g) (Root i) = Some p) by (simpl; rewrite N; reflexivity).
+    pose proof (ginv_phys_below g _ _ G Pp) as Lp.
+    destruct (extract_unit_spec _ _ _ _ _ _ W Lp B U) as [W1 [E1 [I1 [A1 [N1 [V1 [Z1 F1]]]]]]].
+    assert (Pc : forall pc, In pc cs -> (pc < next (g_store g))%positive).
+    { intros pc Hc. apply In_nth_error in Hc. destruct Hc as [k Hk].
+      apply (ginv_phys_below g (Leaf i k)); [exact G|]. simpl. rewrite N. exact Hk. }
+    destruct (extract_children_spec _ i (g_store g) cs 0 s1 s2 cus W1 E1 Pc B C)
+      as [W2 [E2 [A2 [N2 [Len K2]]]]].
+    assert (L1 : (next (g_store g) <= next s1)%positive) by (destruct E1; assumption).
+    assert (L2 : (next s1 <= next s2)%positive) by (destruct E2; assumption).
+    unfold extract_post. cbn [g_store set_store]. unfold units; cbn [b_root b_children map].
+    split; [reflexivity|]. split; [exact W2|]. split; [eapply ext_trans; eauto|].
+    split; [|split; [|split]].
+    + unfold branch_addrs, units; cbn [flat_map b_root b_children].
+      intros a Ha. apply in_app_or in Ha. destruct Ha as [Ha|Ha]; [apply A1 in Ha | apply A2 in Ha]; lia.
+    + unfold branch_addrs, units; cbn [flat_map b_root b_children].
+      apply NoDup_app_intro; [exact N1 | exact N2 |]. intros a Ha Hb. apply A1 in Ha. apply A2 in Hb. lia.
+    + unfold branch_ids, nchildren. rewrite N, I1. f_equal. apply map_nth_ids; [exact Len|].
+      intros k u Hk. destruct (K2 k u Hk) as [_ [_ [Hi _]]]. exact Hi.
+    + intros u [<-|Hu].
+      * rewrite I1. split; [|split; [exact F1|]].
+        -- rewrite (abs_of_refs g (Root i) p Pp). f_equal.
+           rewrite (uvals_ext s1 s2 ru E2) by (intros a Ha; apply A1 in Ha; lia). symmetry. exact V1.
+        -- unfold lifted. rewrite Z1. split; [intros -> ?; congruence|].
+           intro Hn. destruct (assoc (Root i) (l_dict (g_lift g))); [exfalso; apply Hn; discriminate | reflexivity].
+      * apply In_nth_error in Hu. destruct Hu as [k Hk].
+        destruct (K2 k u Hk) as [pc [Hpc [Hi [Hv [Hw Hz]]]]]. simpl in Hi, Hv, Hz.
+        rewrite Hi. split; [|split; [exact Hw|]].
+        -- assert (Pl : phys_get (g_phys g) (Leaf i k) = Some pc) by (simpl; rewrite N; exact Hpc).
+           rewrite (abs_of_refs g (Leaf i k) pc Pl). f_equal. symmetry. exact Hv.
+        -- unfold lifted. rewrite Hz. split; [intros -> ?; congruence|].
+           intro Hn. destruct (assoc (Leaf i k) (l_dict (g_lift g))); [exfalso; apply Hn; discriminate | reflexivity].
+  - destruct (nth_error (g_phys g) i) as [[p cs]|] eqn:N; [|discriminate].
+    destruct (nth_error cs j) as [pc|] eqn:Nc; [|discriminate].
+    destruct (extract_unit (g_lift g) (g_store g) (Root i) p) as [s1 ru] eqn:U.
+    destruct (extract_unit (g_lift g) s1 (Leaf i j) pc) as [s2 cu] eqn:C.
+    injection H as <- <-.
+    assert (Pp : phys_get (g_phys g) (Root i) = Some p) by (simpl; rewrite N; reflexivity).
+    assert (Pl : phys_get (g_phys g) (Leaf i j) = Some pc) by (simpl; rewrite N; exact Nc).
+    pose proof (ginv_phys_below g _ _ G Pp) as Lp.
+    pose proof (ginv_phys_below g _ _ G Pl) as Lc.
+    destruct (extract_unit_spec _ _ _ _ _ _ W Lp B U) as [W1 [E1 [I1 [A1 [N1 [V1 [Z1 F1]]]]]]].
+    assert (L1 : (next (g_store g) <= next s1)%positive) by (destruct E1; assumption).
+    assert (Lc1 : (pc < next s1)%positive) by lia.
+    destruct (extract_unit_spec _ _ _ _ _ _ W1 Lc1 (lift_below_ext _ _ _ E1 B) C)
+      as [W2 [E2 [I2 [A2 [N2 [V2 [Z2 F2]]]]]]].
+    assert (L2 : (next s1 <= next s2)%positive) by (destruct E2; assumption).
+    unfold extract_post. cbn [g_store set_store]. unfold units; cbn [b_root b_children map].
+    split; [reflexivity|]. split; [exact W2|]. split; [eapply ext_trans; eauto|].
+    split; [|split; [|split]].
+    + unfold branch_addrs, units; cbn [flat_map b_root b_children]. rewrite app_nil_r.
+      intros a Ha. apply in_app_or in Ha. destruct Ha as [Ha|Ha]; [apply A1 in Ha | apply A2 in Ha]; lia.
+    + unfold branch_addrs, units; cbn [flat_map b_root b_children]. rewrite app_nil_r.
+      apply NoDup_app_intro; [exact N1 | exact N2 |]. intros a Ha Hb. apply A1 in Ha. apply A2 in Hb. lia.
+    + rewrite I1, I2. reflexivity.
+    + intros u [<-|[<-|[]]].
+      * rewrite I1. split; [|split; [exact F1|]].
+        -- rewrite (abs_of_refs g (Root i) p Pp). f_equal.
+           rewrite (uvals_ext s1 s2 ru E2) by (intros a Ha; apply A1 in Ha; lia). symmetry. exact V1.
+        -- unfold lifted. rewrite Z1. split; [intros -> ?; congruence|].
+           intro Hn. destruct (assoc (Root i) (l_dict (g_lift g))); [exfalso; apply Hn; discriminate | reflexivity].
+      * rewrite I2. split; [|split; [exact F2|]].
+        -- rewrite (abs_of_refs g (Leaf i j) pc Pl). f_equal. rewrite V2. symmetry.
+           apply rvals_ext; [exact E1 | exact Lc | apply lift_refs_below; exact B].
+        -- unfold lifted. rewrite Z2. split; [intros -> ?; congruence|].
+           intro Hn. destruct (assoc (Leaf i j) (l_dict (g_lift g))); [exfalso; apply Hn; discriminate | reflexivity].
+Qed.
+
+(* ======================================================================================== *)
+(** ** Frame lemmas: the abstraction reads only objects reachable from the global state *)
+
+Lemma grefs_reach g id p v t :
+  grefs g id = Some (p, v, t) ->
+  forall a, In a (p :: opt_addrs v ++ opt_addrs t) -> greach g a.
+Proof.
+  unfold grefs. destruct (phys_get (g_phys g) id) as [p0|] eqn:P; [|discriminate].
+  rewrite lift_get_assoc. destruct (assoc id (l_dict (g_lift g))) as [[v0 t0]|] eqn:A;
+    intro H; injection H as <- <- <-; simpl.
+  - intros a [<-|[<-|[<-|[]]]]; [left; eauto | right; exists id, v0, t0; auto | right; exists id, v0, t0; auto].
+  - intros a [<-|[]]. left; eauto.
+Qed.
+
+Lemma rvals_frame s s' p v t :
+  (forall a, In a (p :: opt_addrs v ++ opt_addrs t) -> read s' a = read s a) ->
+  rvals s' (p, v, t) = rvals s (p, v, t).
+Proof.
+  intro H. unfold rvals. rewrite (H p (or_introl eq_refl)).
+  assert (option_map (read s') v = option_map (read s) v) as ->.
+  { destruct v as [a|]; simpl; [|reflexivity]. rewrite (H a); [reflexivity|]. right. simpl. auto. }
+  assert (option_map (read s') t = option_map (read s) t) as ->.
+  { destruct t as [a|]; simpl; [|reflexivity]. rewrite (H a); [reflexivity|]. right. apply in_or_app. simpl; auto. }
+  reflexivity.
+Qed.
+
+Lemma abs_frame g s' id :
+  (forall a, greach g a -> read s' a = read (g_store g) a) ->
+  abs (set_store g s') id = abs g id.
+Proof.
+  intro H. unfold abs. change (grefs (set_store g s') id) with (grefs g id).
+  destruct (grefs g id) as [[[p v] t]|] eqn:R; [|reflexivity]. simpl. f_equal.
+  apply rvals_frame. intros a Ha. apply H. eapply grefs_reach; eauto.
+Qed.
+
+Lemma abs_ext g s' id : ginv g -> ext (g_store g) s' -> abs (set_store g s') id = abs g id.
+Proof.
+  intros G E. apply abs_frame. intros a Ha. apply ext_read; [exact E | apply (gi_reach g G); exact Ha].
+Qed.
+
+Lemma abs_write g a v id : ~ greach g a -> abs (set_store g (write (g_store g) a v)) id = abs g id.
+Proof.
+  intro N. apply abs_frame. intros b Hb. apply read_write_other. intros ->. contradiction.
+Qed.
+
+Lemma ginv_set_store g s' : ginv g -> store_wf s' -> (next (g_store g) <= next s')%positive -> ginv (set_store g s').
+Proof.
+  intros [W R L V] W' Le. constructor; simpl; auto.
+  intros a Ha. specialize (R a Ha). lia.
+Qed.
+
+Lemma set_store_id g : set_store g (g_store g) = g.
+Proof. destruct g; reflexivity. Qed.
+
+Lemma extract_none g id g' : extract g id = (g', None) -> g' = g.
+Proof.
+  destruct id as [i|i j]; simpl.
+  - destruct (nth_error (g_phys g) i) as [[p cs]|]; [|congruence].
+    destruct (extract_unit _ _ _ _). destruct (extract_children _ _ _ _ _). discriminate.
+  - destruct (nth_error (g_phys g) i) as [[p cs]|]; [|congruence].
+    destruct (nth_error cs j); [|congruence].
+    destruct (extract_unit _ _ _ _). destruct (extract_unit _ _ _ _). discriminate.
+Qed.
+
+Lemma extract_valid_some g id : valid g id -> exists b, snd (extract g id) = Some b.
+Proof.
+  unfold valid. destruct id as [i|i j]; simpl.
+  - destruct (nth_error (g_phys g) i) as [[p cs]|]; simpl; [|congruence]. intros _.
+    destruct (extract_unit _ _ _ _). destruct (extract_children _ _ _ _ _). simpl. eauto.
+  - destruct (nth_error (g_phys g) i) as [[p cs]|]; simpl; [|congruence].
+    destruct (nth_error cs j); [|congruence]. intros _.
+    destruct (extract_unit _ _ _ _). destruct (extract_unit _ _ _ _). simpl. eauto.
+Qed.
+
+Lemma abs_some_valid g id x : abs g id = Some x -> valid g id.
+Proof.
+  unfold abs, grefs, valid. destruct (phys_get (g_phys g) id); [congruence | discriminate].
+Qed.
+
+(** What holds of a branch handed out by a copying extraction, relative to a later store [sf]. *)
+Definition extracted (g : gstate) (sf : store) (id : ident) (b : branch) : Prop :=
+  (forall a, In a (branch_addrs b) -> (next (g_store g) <= a < next sf)%positive) /\
+  map u_id (units b) = branch_ids g id /\
+  (forall u, In u (units b) ->
+     abs g (u_id u) = Some (uvals sf u) /\ unit_wf u /\ (u_vel u = None <-> ~ lifted g (u_id u))).
+
+Lemma extract_post_extracted g id g' b : extract_post g id g' b -> extracted g (g_store g') id b.
+Proof. intros [_ [_ [_ [A [_ [I U]]]]]]. split; [exact A | split; [exact I | exact U]]. Qed.
+
+Lemma uvals_branch_ext s s' b u :
+  ext s s' -> (forall a, In a (branch_addrs b) -> (a < next s)%positive) -> In u (units b) ->
+  uvals s' u = uvals s u.
+Proof.
+  intros E B Hu. apply uvals_ext; [exact E|]. intros a Ha. apply B.
+  unfold branch_addrs. apply in_flat_map. eauto.
+Qed.
+
+Lemma Forall2_weaken {A B} (P Q : A -> B -> Prop) l1 l2 :
+  (forall a b, P a b -> Q a b) -> Forall2 P l1 l2 -> Forall2 Q l1 l2.
+Proof. intros H F. induction F; constructor; auto. Qed.
+
+Lemma Forall2_In_r {A B} (P : A -> B -> Prop) l1 l2 b :
+  Forall2 P l1 l2 -> In b l2 -> exists a, In a l1 /\ P a b.
+Proof.
+  intro F. induction F as [|x y l l' H F IH]; simpl; [intros []|].
+  intros [<-|Hb]; [eauto|]. destruct (IH Hb) as [a [Ha Hp]]. eauto.
+Qed.
+
+Lemma extract_list_spec : forall ids g g' bs,
+  ginv g -> (forall id, In id ids -> valid g id) -> extract_list g ids = (g', bs) ->
+  g' = set_store g (g_store g') /\ store_wf (g_store g') /\ ext (g_store g) (g_store g') /\
+  Forall2 (extracted g (g_store g')) ids bs /\ NoDup (flat_map branch_addrs bs).
+Proof.
+  induction ids as [|id r IH]; intros g g' bs G V H; simpl in H.
+  - injection H as <- <-. rewrite set_store_id.
+    split; [reflexivity|]. split; [apply (gi_wf g G)|]. split; [apply ext_refl|]. split; constructor.
+  - destruct (extract g id) as [g1 ob] eqn:X.
+    destruct (extract_list g1 r) as [g2 bs'] eqn:Y. injection H as <- <-.
+    destruct (extract_valid_some g id (V id (or_introl eq_refl))) as [b Hb].
+    rewrite X in Hb. simpl in Hb. subst ob.
+    pose proof (extract_spec g id g1 b G X) as P.
+    destruct P as [S1 [W1 [E1 [A1 [N1 [I1 U1]]]]]].
+    assert (L1 : (next (g_store g) <= next (g_store g1))%positive) by (destruct E1; assumption).
+    assert (G1 : ginv g1) by (rewrite S1; apply ginv_set_store; assumption).
+    assert (V1 : forall id', In id' r -> valid g1 id').
+    { intros id' Hi. rewrite S1. unfold valid; simpl. apply V. right. exact Hi. }
+    destruct (IH g1 g2 bs' G1 V1 Y) as [S2 [W2 [E2 [F2 N2]]]].
+    assert (L2 : (next (g_store g1) <= next (g_store g2))%positive) by (destruct E2; assumption).
+    split; [rewrite S2, S1; reflexivity|]. split; [exact W2|]. split; [eapply ext_trans; eauto|].
+    split.
+    + constructor.
+      * split; [|split; [exact I1|]].
+        -- intros a Ha. apply A1 in Ha. lia.
+        -- intros u Hu. destruct (U1 u Hu) as [Ab [Wf Z]]. split; [|split; assumption].
+           rewrite Ab. f_equal. symmetry. eapply uvals_branch_ext; eauto. intros a Ha. apply A1 in Ha. lia.
+      * eapply Forall2_weaken; [|exact F2]. intros id' b' [A' [I' U']].
+        split; [|split].
+        -- intros a Ha. apply A' in Ha. lia.
+        -- rewrite I'. rewrite S1. reflexivity.
+        -- intros u Hu. destruct (U' u Hu) as [Ab [Wf Z]]. split; [|split; [exact Wf|]].
+           ++ rewrite <- Ab. rewrite S1. symmetry. apply abs_ext; assumption.
+           ++ rewrite Z. rewrite S1. reflexivity.
+    + cbn [flat_map]. apply NoDup_app_intro; [exact N1 | exact N2 |].
+      intros a Ha Hb. apply A1 in Ha. apply in_flat_map in Hb. destruct Hb as [b' [Hb' Ha']].
+      destruct (Forall2_In_r _ _ _ b' F2 Hb') as [id' [_ [A' _]]]. apply A' in Ha'. lia.
+Qed.
+
+(* ======================================================================================== *)
+(** ** The independent-active rule *)
+
+Lemma filter_len_le {A} (p : A -> bool) (l : list A) : length (filter p l) <= length l.
+Proof. induction l; simpl; [lia|]. destruct (p a); simpl; lia. Qed.
+
+Lemma filter_all_length {A} (p : A -> bool) (l : list A) :
+  length (filter p l) = length l <-> forall x, In x l -> p x = true.
+Proof.
+  induction l as [|a r IH]; simpl.
+  - split; [intros _ x [] | reflexivity].
+  - destruct (p a) eqn:E; simpl.
+    + split.
+      * intros H x [<-|Hx]; [exact E|]. apply IH; [lia | exact Hx].
+      * intro H. f_equal. apply IH. intros x Hx. apply H. auto.
+    + split.
+      * intro H. pose proof (filter_len_le p r). lia.
+      * intro H. specialize (H a (or_introl eq_refl)). congruence.
+Qed.
+
+Lemma filter_not_all {A} (p : A -> bool) (l : list A) :
+  length (filter p l) <> length l -> exists x, In x l /\ p x = false.
+Proof.
+  induction l as [|a r IH]; simpl; [congruence|].
+  destruct (p a) eqn:E; simpl.
+  - intro H. destruct IH as [x [Hx Px]]; [lia|]. eauto.
+  - intros _. eauto.
+Qed.
+
+Lemma is_lifted_iff g id : ginv g -> (is_lifted g id = true <-> lifted g id).
+Proof. intro G. apply (gi_lift g G). Qed.
+
+Lemma is_lifted_false g id : ginv g -> (is_lifted g id = false <-> ~ lifted g id).
+Proof.
+  intro G. rewrite <- (is_lifted_iff g id G). destruct (is_lifted g id); split; congruence.
+Qed.
+
+Lemma root_valid g i : i < length (g_phys g) <-> valid g (Root i).
+Proof.
+  unfold valid; simpl. rewrite <- nth_error_Some.
+  destruct (nth_error (g_phys g) i); simpl; split; congruence.
+Qed.
+
+(** One level ([_yield_independent_lifted_identifiers_simple]): the lifted identifiers. *)
+Lemma active_ids_rule1 g : g_levels g = 1 ->
+  forall id, In id (active_ids g) <-> exists i, id = Root i /\ i < length (g_phys g) /\ lifted g (Root i).
+Proof.
+  intros L id. unfold active_ids. rewrite L. simpl. rewrite filter_In, in_map_iff. split.
+  - intros [[i [<- Hi]] H]. apply in_seq in Hi. exists i. split; [reflexivity|]. split; [lia|].
+    unfold lifted. destruct (assoc (Root i) (l_dict (g_lift g))); congruence.
+  - intros [i [-> [Hi H]]]. split.
+    + exists i. split; [reflexivity|]. apply in_seq. lia.
+    + unfold lifted in H. destruct (assoc (Root i) (l_dict (g_lift g))); congruence.
+Qed.
+
+(** Two levels ([yield_independent_lifted_identifiers]): a lifted root whose [g_npr] children are
+    all lifted is extracted as a composite object; otherwise its lifted children are. *)
+Lemma active_ids_rule2 g : ginv g -> g_levels g <> 1 ->
+  forall id, In id (active_ids g) <->
+  match id with
+  | Root i => i < length (g_phys g) /\ lifted g (Root i) /\ forall j, j < g_npr g -> lifted g (Leaf i j)
+  | Leaf i j => i < length (g_phys g) /\ lifted g (Root i) /\ j < g_npr g /\ lifted g (Leaf i j) /\
+                exists j', j' < g_npr g /\ ~ lifted g (Leaf i j')
+  end.
+Proof.
+  intros G L id. unfold active_ids. apply Nat.eqb_neq in L. rewrite L.
+  rewrite in_flat_map.
+  set (ls := fun i => filter (fun j => is_lifted g (Leaf i j)) (seq 0 (g_npr g))).
+  assert (Hall : forall i, length (ls i) = g_npr g <-> forall j, j < g_npr g -> lifted g (Leaf i j)).
+  { intro i. unfold ls. rewrite <- (seq_length (g_npr g) 0) at 2. rewrite filter_all_length.
+    split; intros H j Hj.
+    - apply is_lifted_iff; [exact G|]. apply H. apply in_seq. lia.
+    - apply is_lifted_iff; [exact G|]. apply H. apply in_seq in Hj. lia. }
+  split.
+  - intros [i [Hi H]]. apply in_seq in Hi.
+    destruct (is_lifted g (Root i)) eqn:R; [|destruct H].
+    apply is_lifted_iff in R; [|exact G].
+    fold (ls i) in H. destruct (Nat.eqb (length (ls i)) (g_npr g)) eqn:E.
+    + apply Nat.eqb_eq in E. destruct H as [<-|[]]. split; [lia|]. split; [exact R|]. apply (proj1 (Hall i)). exact E.
+    + apply Nat.eqb_neq in E. apply in_map_iff in H. destruct H as [j [<- Hj]].
+      unfold ls in Hj. apply filter_In in Hj. destruct Hj as [Hj Lj]. apply in_seq in Hj.
+      split; [lia|]. split; [exact R|]. split; [lia|]. split; [apply is_lifted_iff; assumption|].
+      unfold ls in E. rewrite <- (seq_length (g_npr g) 0) in E at 2.
+      apply filter_not_all in E. destruct E as [j' [Hj' Fj']]. apply in_seq in Hj'.
+      exists j'. split; [lia|]. apply is_lifted_false; assumption.
+  - destruct id as [i|i j].
+    + intros [Hi [R A]]. exists i. split; [apply in_seq; lia|].
+      apply (is_lifted_iff g _ G) in R. rewrite R. fold (ls i).
+      pose proof (proj2 (Hall i) A) as A'. apply Nat.eqb_eq in A'. rewrite A'. left. reflexivity.
+    + intros [Hi [R [Hj [Lj [j' [Hj' N]]]]]]. exists i. split; [apply in_seq; lia|].
+      apply (is_lifted_iff g _ G) in R. rewrite R. fold (ls i).
+      destruct (Nat.eqb (length (ls i)) (g_npr g)) eqn:E.
+      * apply Nat.eqb_eq in E. pose proof (proj1 (Hall i) E) as E'. exfalso. apply N. apply E'. exact Hj'.
+      * apply in_map. unfold ls. apply filter_In. split; [apply in_seq; lia|].
+        apply is_lifted_iff; assumption.
+Qed.
+
+Lemma active_ids_valid g : ginv g -> forall id, In id (active_ids g) -> valid g id.
+Proof.
+  intros G id H. destruct (Nat.eq_dec (g_levels g) 1) as [L|L].
+  - apply (active_ids_rule1 g L) in H. destruct H as [i [-> [Hi _]]]. apply root_valid. exact Hi.
+  - apply (active_ids_rule2 g G L) in H. destruct id as [i|i j].
+    + apply root_valid. tauto.
+    + apply (gi_lvalid g G). tauto.
+Qed.
+
+Theorem extract_active_spec g g' bs : ginv g -> extract_active g = (g', bs) ->
+  g' = set_store g (g_store g') /\ store_wf (g_store g') /\ ext (g_store g) (g_store g') /\
+  Forall2 (extracted g (g_store g')) (active_ids g) bs /\ NoDup (flat_map branch_addrs bs).
+Proof.
+  intros G H. apply extract_list_spec; [exact G | apply active_ids_valid; exact G | exact H].
 Qed.
